@@ -144,6 +144,48 @@ pub fn run(seed: u64, n: usize, driver: &str, out: &str, exhaustive: bool) -> se
             }
         }
     }
+    // 1b. the same on inputs ABOVE 1 MiB in every multi-byte encoding (one piece of valid text behind a 0..3-byte prefix,
+    //     once intact and once with the last byte cut off): whatever the helper does block-wise must not show
+    for e in ["utf-8", "shift_jis", "big5", "euc-kr", "gbk", "gb18030", "euc-jp", "utf-16le", "utf-16be"] {
+        let codec = match encoding_from_whatwg_label(e) { Some(c) => c, None => continue };
+        let enc_static: &'static str = match e { "utf-8" => "utf-8", "shift_jis" => "shift_jis", "big5" => "big5", "euc-kr" => "euc-kr", "gbk" => "gbk", "gb18030" => "gb18030", "euc-jp" => "euc-jp", "utf-16le" => "utf-16le", _ => "utf-16be" };
+        let n_full = 1_050_000 + rng.below(100_000);
+        let full = multibyte_text(&mut rng, &corpus, n_full, enc_static);
+        let mut cut = full.clone();
+        cut.pop();
+        {
+            // detection restricted to this encoding on the intact input: every reported candidate must strictly decode it to the exposed text
+            let mut st = crate::gen::default_settings();
+            st.include_encodings = vec![e.to_string()];
+            if let crate::sig::Outcome::Ok(ms) = crate::sig::run_real(&full, &st) {
+                evals += 1;
+                for f in crate::props::check_c01(&full, &st, &ms) {
+                    violations.push(json!({"prop": f.prop, "what": format!("{} (input of {} bytes, detection restricted to {})", f.what, full.len(), e), "known": f.known,
+                        "case": {"encoding": e, "bytes_len": full.len(), "bytes_head_hex": hex(&full[..64.min(full.len())]), "how": "multibyte_text(seed): re-run the decode level with the same seed"}}));
+                }
+            }
+        }
+        for b in [&full, &cut] {
+            for (trap, name) in [(DecoderTrap::Strict, "strict"), (DecoderTrap::Replace, "replace")] {
+                evals += 1;
+                let h = decode(b, e, trap, false, false);
+                let c = codec.decode(b, trap);
+                let same = match (&h, &c) { (Ok(a), Ok(b2)) => a == b2, (Err(_), Err(_)) => true, _ => false };
+                if !same {
+                    violations.push(json!({"prop": "C17", "what": format!("decode helper differs from the codec on an input of {} bytes: enc={} mode={} helper={:?} codec={:?}", b.len(), e, name, h.as_ref().map(|s| s.len()).map_err(|m| m.clone()), c.as_ref().map(|s| s.len()).map_err(|m| m.to_string())),
+                        "known": null, "case": {"encoding": e, "mode": name, "bytes_len": b.len(), "bytes_head_hex": hex(&b[..64.min(b.len())]), "how": "multibyte_text(seed) -- re-run the decode level with the same seed"}}));
+                }
+                if !same {
+                    diffs.push(json!({"what": "decode helper vs codec crate on an input above 1 MiB", "encoding": e, "mode": name, "bytes_len": b.len()}));
+                }
+                let t = decode(b, e, trap, true, false);
+                if t.is_ok() != h.is_ok() || t.as_ref().map(|s| !s.is_empty()).unwrap_or(false) {
+                    violations.push(json!({"prop": "C17", "what": format!("test-only mode disagrees with the real decode on an input of {} bytes: enc={} mode={}", b.len(), e, name),
+                        "known": null, "case": {"encoding": e, "mode": name, "bytes_len": b.len()}}));
+                }
+            }
+        }
+    }
     // 2. model correspondence: UTF-8 in all modes, single-byte tables
     for i in 0..n {
         let b = gen_bytes(&mut rng, &corpus, "utf-8");
